@@ -673,6 +673,11 @@ func readUnion(tr *tokenReader) (Union, error) {
 			if !tr.Next() {
 				return union, readError(tr.nextToken, "union definition ended early")
 			}
+			if tr.Token().kind == tokenKindNewline {
+				// the branch's own closing brace had been read already and its line is over:
+				// a comment on the next line documents the next branch, it does not trail this one
+				continue
+			}
 			skipEndOfLineComments(tr)
 			optNewline(tr)
 
